@@ -142,6 +142,7 @@ var unsupportedKinds = []string{"named uintptr", "named chan", "named func", "na
 	"anonymous struct{chan}", "*anonymous struct{func}", "[]interface{}{anonymous struct{complex}}",
 	"[]interface{}{*prefix, *whole with a chan in the tail}", "struct{*prefix, *whole with a func in the tail}",
 	"second of two types of one class name{unexported field}",
+	"string that is not valid UTF-8", "[]string{.., not valid UTF-8}", "struct{string that is not valid UTF-8}", "map key that is not valid UTF-8", "named string that ends inside a code point",
 	"struct{unexported field}", "*struct{unexported field}", "*struct{sync.Mutex}", "struct{*struct{unexported field}}", "all-zero struct{chan}",
 	"struct{Évent chan}", "struct{Ωmega func; Ärger complex128}", "struct{time.Time; chan}", "*struct{struct{time.Time; chan}}",
 	"int beyond 32 bits", "negative int beyond 32 bits", "[]int{.., beyond 32 bits, ..}", "map[string]int{beyond 32 bits}", "struct{int beyond 32 bits}"}
@@ -261,6 +262,17 @@ func unsupportedValue(kind string) interface{} {
 	case "struct{unexported field}":
 		// what sits in an unexported field cannot be read, let alone represented
 		return badHidden{A: 1, hits: 3, B: "b"}
+	case "string that is not valid UTF-8":
+		// a Hessian string is a sequence of characters: octets that are no UTF-8 have no rendering (a []byte has)
+		return "a\xffb"
+	case "[]string{.., not valid UTF-8}":
+		return []string{"ok", "caf\xe9", "ok"} // Latin-1, not UTF-8
+	case "struct{string that is not valid UTF-8}":
+		return &zoo.Inner{A: 1, S: "\xc3"} // the first octet of a two-octet character, alone
+	case "map key that is not valid UTF-8":
+		return map[string]int32{"k\xed\xa0\x80": 1} // a surrogate half in UTF-8 clothing
+	case "named string that ends inside a code point":
+		return zoo.Label("日本"[:4])
 	case "*struct{unexported field}":
 		// (behind a pointer the object has an identity: refused once, refused whenever it is offered)
 		return &badHidden{A: 1, hits: 3, B: "b"}
